@@ -54,13 +54,18 @@ def check(run):
                     run.findings.append(Finding("C04.py.native_sweep", problems[0].split("[")[0][:40], f"shape n,c,k={shp} control_none={cn}: {problems[0]}", {"language": "python", "inputs": {"shape": list(shp), "seed": run.seed, "control_none": cn}, "model_definition": sc.describe(), "oracle_verdict": problems[:5]}, True))
         run.bounded.append({"what": "native process_model on generic models vs exact rational textbook prediction; repeat call; inputs unmodified", "bound": f"{len(shapes)} shapes x control given/None, one point each", "failures": fails, "counted_as_proved": False})
 
-    from checks.ekf_common import stateful_sweep
+    from checks.ekf_common import dtype_sweep, stateful_sweep
 
+    dtype_sweep(run, "C04", ("predicted",))
     stateful_sweep(run, "C04", ('prediction',), run.tier == "thorough" or any(r.status != "ok" for r in run.reports) or bool(run.undecided) or bool(run.findings))
 
 
 def replay_file(payload):
     inp = payload["inputs"]
+    if inp.get("dtypes"):
+        from checks.ekf_common import replay_dtypes
+
+        return replay_dtypes(inp)
     if inp.get("magnitude_jacobians"):
         from checks.ekf_common import replay_magnitude
 
